@@ -10,7 +10,7 @@ X(s) == MkArr(s, 3, 1)
 Y(s) == MkArr(s, -2, 7)
 P(s) == <<X(s), Y(s)>>
 Q(s) == <<MkArr(s, 1, -4), MkArr(s, 5, 0)>>
-Dirs == {<<3, 4, 5>>, <<-12, 5, 13>>, <<0, 1, 1>>, <<1, 0, 1>>, <<4, -3, 5>>}
+Dirs == {<<3, 4, 5>>, <<-12, 5, 13>>, <<0, 1, 1>>, <<1, 0, 1>>, <<4, -3, 5>>, <<-1, 0, 1>>, <<0, -1, 1>>}
 
 IntExprs == {[k |-> "int", i |-> i] : i \in {0, 1, -1, 2, 5, -4}}
 SliceExprs == {[k |-> "slice", start |-> t[1], stop |-> t[2], step |-> t[3]] :
